@@ -35,6 +35,19 @@ def handleC03 : List String → String
     (match missingVariants (variants.splitOn ",") (isOpt == "1") pats with
     | [] => "complete"
     | ms => "missing " ++ ",".intercalate ms)
+  | ["call", _kind, params, args, _truth] =>
+    let ps : List (String × String) := (params.splitOn ";").map fun p => match p.splitOn ":" with
+      | [n, t] => (n, t)
+      | _ => ("?", "?")
+    let as : List CArg := (args.splitOn ";").map fun a => match a.splitOn "=" with
+      | [n, t] => ⟨some n, t⟩
+      | _ => ⟨none, a⟩
+    -- `types_compatible` on the generated type names is equality; Box adopts Shape, Sq extends Box
+    let ok (a e : String) : Bool := a == e || (e == "Shape" && (a == "Box" || a == "Sq"))
+    let flagged := validateArgs ok as ps 0
+    (match (List.range as.length).filter (fun i => flagged.contains i) with
+    | [] => "accepted"
+    | l => "flag " ++ ",".intercalate (l.map toString))
   | _ => "bad-op"
 
 end Incan.Driver
